@@ -67,8 +67,8 @@ CHECKS = {
             st("main", "rel", [250, 30000], [25, 400]),
             st("dbgassert", "relda", [60, 1000], [20, 200], shards=4),
             st("tsan", "tsan", [40, 800], [30, 300], shards=4, concurrent=True),
-            st("miri", "miri", [0, 1], [0, 1500], thorough_only=True, shards=1, watchdog_factor=2,
-               env={"MIRIFLAGS_EXTRA": "-Zmiri-many-seeds=0..8"}),
+            st("miri", "miri", [0, 1], [0, 1500], thorough_only=True, shards=1, watchdog_factor=4,
+               env={"MIRIFLAGS_EXTRA": "-Zmiri-many-seeds=0..6"}),
         ],
         "rule": "case = generated dictionary + <= 6 distinct sentences (empty, one char, tripled, spaces only ...); (1) a random history of "
                 "reset_sentence/tokenize (0-3 times)/read/init_connid_counter/update_connid_counts of length <= 40 on ONE worker, every result "
